@@ -158,8 +158,46 @@ def proj_value(v, depth=0):
     if isinstance(v, dict):
         return dict((str(k), proj_value(x, depth + 1)) for k, x in sorted(v.items(), key=lambda kv: str(kv[0])))
     if ser.is_exp(v):
-        return ser.tree(v)
+        return xtree(v)
     return "obj:" + type(v).__name__
+
+
+def xtree(e, depth=0):
+    """attribute-only projection of an operand expression (like ser.tree, but a segment register in a
+    ptr is projected too instead of being compared with '')"""
+    if depth > 60:
+        return {"k": "deep"}
+    if not ser.is_exp(e):
+        return proj_value(e, 5) if depth < 50 else "raw"
+    k = ser.kind(e)
+    d = {"k": k, "w": e.size, "sf": 1 if e.sf else 0}
+    if k == "cst":
+        d["v"] = hex(e.v)
+    elif k in ("reg", "ext", "lab"):
+        d["n"] = str(e.ref)
+    elif k == "slc":
+        d["x"] = xtree(e.x, depth + 1)
+        d["pos"] = e.pos
+    elif k == "comp":
+        d["parts"] = [[lo, hi, xtree(p, depth + 1)] for (lo, hi), p in sorted(e.parts.items())]
+    elif k == "tst":
+        d["c"], d["l"], d["r"] = xtree(e.tst, depth + 1), xtree(e.l, depth + 1), xtree(e.r, depth + 1)
+    elif k == "op":
+        d["s"], d["l"], d["r"] = e.op.symbol, xtree(e.l, depth + 1), xtree(e.r, depth + 1)
+    elif k == "uop":
+        d["s"], d["r"] = e.op.symbol, xtree(e.r, depth + 1)
+    elif k == "ptr":
+        d["base"] = xtree(e.base, depth + 1)
+        d["disp"] = e.disp if isinstance(e.disp, int) else xtree(e.disp, depth + 1)
+        seg = e.seg
+        d["seg"] = xtree(seg, depth + 1) if ser.is_exp(seg) else (seg if isinstance(seg, (str, int)) or seg is None else "obj")
+    elif k == "mem":
+        d["a"] = xtree(e.a, depth + 1)
+        d["en"] = e.endian
+        d["mods"] = len(e.mods or [])
+    elif k == "vec":
+        d["l"] = [xtree(x, depth + 1) for x in e.l]
+    return d
 
 
 def proj_ins(i):
@@ -169,6 +207,9 @@ def proj_ins(i):
     for k, v in vars(i).items():
         if k in ("spec", "address"):
             continue
+        if k == "misc" and isinstance(v, dict):
+            # misc is a defaultdict(None): a key holding None is what a missing key reads as
+            v = dict((a, b) for a, b in v.items() if b is not None)
         d[k] = proj_value(v)
     return json.dumps(d, sort_keys=True, default=lambda o: "obj:" + type(o).__name__)
 
@@ -318,12 +359,18 @@ def trace_config(args):
         ev = []
         tr = {"t": "%s/%s#%d" % (modname, label, part), "isa": modname, "label": label, "E": e, "Ebuild": ebuild,
               "maxlen": buildmaxlen, "callmaxlen": d.maxlen,
-              "specs": [spec_row(s) for s in L], "nodes": dump_tree(d.specs[mode], index), "ev": ev,
+              "specs": [spec_row(s) for s in L], "nodes": [], "ev": ev,
               "formats": [s.format for s in L] if part == 0 else []}
         if part == 0:
             ev.append({"k": "tree"})
         try:
             setter()
+            try:
+                d(b"")      # the tree is dumped as it is once the configuration has been used
+            except Exception:
+                pass
+            setattr(d, "_disassembler__i", None)
+            tr["nodes"] = dump_tree(d.specs[mode], index)
             words = words_for_config(L, d, e, rng, per_spec, nrandom)
             for w in words[part::nparts]:
                 ev.append(dict(observe_word(d, L, index, w, e), w=bytes(w).hex()))
